@@ -114,7 +114,10 @@ func (e *Encoder) Write(_ context.Context, f frame.Frame) error {
 // DecodingReader provides a Reader on top of a gob stream
 // encoded with batches of rows stored in column-major order.
 type decodingReader struct {
-	dec     *gobDecoder
+	dec *gobDecoder
+	// peek is the buffered reader underlying dec; it is used to tell a
+	// graceful end of stream (no more bytes) from a truncated batch.
+	peek    *bufio.Reader
 	crc     hash.Hash32
 	scratch frame.Frame
 	buf     frame.Frame
@@ -134,11 +137,19 @@ func NewDecodingReader(r io.Reader) Reader {
 	// checksumming. Instead we fake an implementation of io.ByteReader,
 	// and take over the responsibility of ensuring that IO is buffered.
 	crc := crc32.NewIEEE()
-	if _, ok := r.(io.ByteReader); !ok {
-		r = bufio.NewReader(r)
+	peek := bufio.NewReader(r)
+	r = io.TeeReader(peek, crc)
+	return &decodingReader{dec: newGobDecoder(readerByteReader{Reader: r}), peek: peek, crc: crc}
+}
+
+// unexpectedEOF maps io.EOF, which gob also returns for short or
+// damaged messages, to io.ErrUnexpectedEOF: inside a batch, running
+// out of data is never a graceful end of stream.
+func unexpectedEOF(err error) error {
+	if err == io.EOF {
+		return io.ErrUnexpectedEOF
 	}
-	r = io.TeeReader(r, crc)
-	return &decodingReader{dec: newGobDecoder(readerByteReader{Reader: r}), crc: crc}
+	return err
 }
 
 func (d *decodingReader) Read(ctx context.Context, f frame.Frame) (n int, err error) {
@@ -146,11 +157,17 @@ func (d *decodingReader) Read(ctx context.Context, f frame.Frame) (n int, err er
 		return 0, d.err
 	}
 	for d.buf.Len() == 0 {
+		// The stream ends gracefully only at a batch boundary.
+		if _, err := d.peek.Peek(1); err == io.EOF {
+			d.err = EOF
+			return 0, d.err
+		}
 		d.crc.Reset()
-		if d.err = d.dec.Decode(&n); d.err != nil {
-			if d.err == io.EOF {
-				d.err = EOF
-			}
+		if d.err = unexpectedEOF(d.dec.Decode(&n)); d.err != nil {
+			return 0, d.err
+		}
+		if n < 0 {
+			d.err = errors.E(errors.Integrity, fmt.Errorf("invalid batch length %d", n))
 			return 0, d.err
 		}
 		// In most cases, we should be able to decode directly into the
@@ -188,14 +205,14 @@ func (d *decodingReader) decode(f frame.Frame) error {
 	for col := 0; col < f.NumOut(); col++ {
 		var codec bool
 		if err := d.dec.Decode(&codec); err != nil {
-			return err
+			return unexpectedEOF(err)
 		}
 		if codec && !f.HasCodec(col) {
 			return errors.New("column encoded with custom codec but no codec available on receipt")
 		}
 		if codec {
 			if err := f.Decode(col, d.dec); err != nil {
-				return err
+				return unexpectedEOF(err)
 			}
 			continue
 		}
@@ -212,21 +229,18 @@ func (d *decodingReader) decode(f frame.Frame) error {
 		v := reflect.NewAt(reflect.SliceOf(f.Out(col)), unsafe.Pointer(pHdr))
 		err := d.dec.DecodeValue(v)
 		if err != nil {
-			if err == io.EOF {
-				return EOF
-			}
-			return err
+			return unexpectedEOF(err)
 		}
-		// This is guaranteed by gob, but it seems worthy of some defensive programming here.
-		// It's also an extra check against the correctness of the codec.
-		if pHdr.Data != sh.Data {
-			panic("gob reallocated a slice")
+		// Gob decodes in place unless the encoded column is longer than
+		// the batch length announced, which only a damaged stream can do.
+		if pHdr.Data != sh.Data || pHdr.Len != sh.Len {
+			return errors.E(errors.Integrity, fmt.Errorf("column %d: decoded %d values for a batch of %d rows", col, pHdr.Len, sh.Len))
 		}
 	}
 	sum := d.crc.Sum32()
 	var decoded uint32
 	if err := d.dec.Decode(&decoded); err != nil {
-		return err
+		return unexpectedEOF(err)
 	}
 	if sum != decoded {
 		return errors.E(errors.Integrity, fmt.Errorf("computed checksum %x but expected checksum %x", sum, decoded))
